@@ -56,6 +56,7 @@ type Case struct {
 	ShrinkRuns  int         `json:"shrink_runs,omitempty"`
 	OrigPlanLen int         `json:"orig_plan_len,omitempty"`
 	OrigSchedLen int        `json:"orig_sched_len,omitempty"`
+	Knobs       map[string]int `json:"knobs,omitempty"` // harness configuration overrides the run was made under
 }
 
 // Record is one line of worker output.
@@ -193,7 +194,7 @@ func Fingerprint(f *simrt.Failure) string {
 
 func mkCase(h Harness, job *Job, seed uint64, idx int, o outcome) *Case {
 	c := &Case{Property: job.Property, Engine: "simrt/1", Seed: seed, Index: idx, Plan: o.plan, Sched: o.res.SchedTrace,
-		EventHash: fmt.Sprintf("%016x", o.res.SchedHash), Workload: o.run.Workload(), MaxSteps: job.MaxSteps, Blocked: o.res.Blocked}
+		EventHash: fmt.Sprintf("%016x", o.res.SchedHash), Workload: o.run.Workload(), MaxSteps: job.MaxSteps, Blocked: o.res.Blocked, Knobs: job.Knobs}
 	if o.fail != nil {
 		c.Class = o.fail.Class
 		c.Fingerprint = Fingerprint(o.fail)
